@@ -27,10 +27,13 @@ func (c *Ctx) Owner(s *Stmt) string {
 	return c.Key(c.effectiveTop(top(s.Fn), 0))
 }
 
-var namedAnchors = map[string]bool{fnDeliver: true, fnDeadLetter: true}
+// namedAnchors: unexported functions and methods the properties name as mechanisms; they keep their own identity
+// (statements they build are "theirs"), every other unexported function or method is transparent: it belongs to the
+// operation(s) that call it.
+var namedAnchors = map[string]bool{fnDeliver: true, fnDeadLetter: true, fnPullExec: true, fnPullQuery: true, fnPullBuild: true, fnPullNext: true, fnPullApply: true, fnPullVerify: true}
 
 func (c *Ctx) effectiveTop(f *ssa.Function, depth int) *ssa.Function {
-	if depth > 3 || f.Signature.Recv() != nil || f.Object() == nil || f.Object().Exported() || namedAnchors[c.Key(f)] {
+	if depth > 3 || f.Object() == nil || f.Object().Exported() || namedAnchors[c.Key(f)] {
 		return f
 	}
 	if len(c.valueUses(f)) > 0 {
@@ -54,6 +57,32 @@ func (c *Ctx) effectiveTop(f *ssa.Function, depth int) *ssa.Function {
 	return owner
 }
 
+// effectiveOwners: the operations a function's code runs in: itself when it is exported, an anchor, or used as a
+// value; otherwise the owners of all its callers (a private helper shared by two operations has both as owners).
+func (c *Ctx) effectiveOwners(f *ssa.Function, depth int) []*ssa.Function {
+	f = top(f)
+	if depth > 3 || f.Object() == nil || f.Object().Exported() || namedAnchors[c.Key(f)] || len(c.valueUses(f)) > 0 {
+		return []*ssa.Function{f}
+	}
+	seen := map[*ssa.Function]bool{}
+	var out []*ssa.Function
+	for _, ci := range c.callersOf(f) {
+		if c.FnInControl(ci.Parent()) {
+			continue
+		}
+		for _, o := range c.effectiveOwners(ci.Parent(), depth+1) {
+			if !seen[o] {
+				seen[o] = true
+				out = append(out, o)
+			}
+		}
+	}
+	if len(out) == 0 {
+		return []*ssa.Function{f}
+	}
+	return out
+}
+
 // partOf: fn is the anchored function `anchor`, or an unexported helper (function or method) that is not itself an
 // anchor and is called only from functions that are part of it (extracting a block into a private helper does not
 // move the block out of the operation).
@@ -75,6 +104,45 @@ func (c *Ctx) partOf(fn *ssa.Function, anchor string, depth int) bool {
 		}
 	}
 	return true
+}
+
+// opFuncs: the functions that make up the operation anchored at fn: fn itself and the unexported, non-anchor helpers
+// (functions and methods) that are called only from within it, transitively.
+func (c *Ctx) opFuncs(fn *ssa.Function) []*ssa.Function {
+	if c.opCache == nil {
+		c.opCache = map[*ssa.Function][]*ssa.Function{}
+	}
+	if v, ok := c.opCache[fn]; ok {
+		return v
+	}
+	out := []*ssa.Function{fn}
+	inSet := map[*ssa.Function]bool{fn: true}
+	// callee closure through unexported, non-anchor module helpers (a helper shared by two operations belongs to both)
+	for i := 0; i < len(out) && len(out) < 64; i++ {
+		var scan func(f *ssa.Function)
+		scan = func(f *ssa.Function) {
+			for _, ci := range callsIn(f, false, func(cal *ssa.Function, _ ssa.CallInstruction) bool { return true }) {
+				cal := ci.Common().StaticCallee()
+				if cal == nil {
+					continue
+				}
+				if o := cal.Origin(); o != nil && false {
+					cal = o
+				}
+				if inSet[cal] || len(cal.Blocks) == 0 || cal.Parent() != nil || !c.inModule(cal) || cal.Object() == nil || cal.Object().Exported() || namedAnchors[c.Key(cal)] || c.EntShape().isGenerated(cal) || c.FnInControl(cal) {
+					continue
+				}
+				inSet[cal] = true
+				out = append(out, cal)
+			}
+			for _, a := range f.AnonFuncs {
+				scan(a)
+			}
+		}
+		scan(out[i])
+	}
+	c.opCache[fn] = out
+	return out
 }
 
 // allStmts includes nested eager-load statements.
@@ -364,6 +432,65 @@ func callsIn(fn *ssa.Function, nested bool, pred func(cal *ssa.Function, call ss
 		}
 	}
 	walk(fn)
+	return out
+}
+
+// opFuncWhere: among the functions of the operation anchored at fn (fn itself first), the first one for which has()
+// holds; fn when none does. Rules that look at one function at a time use it to follow a block that was extracted
+// into a private helper.
+func (c *Ctx) opFuncWhere(fn *ssa.Function, has func(f *ssa.Function) bool) *ssa.Function {
+	for _, f := range c.opFuncs(fn) {
+		if has(f) {
+			return f
+		}
+	}
+	return fn
+}
+
+func hasCallTo(target *ssa.Function) func(f *ssa.Function) bool {
+	return func(f *ssa.Function) bool {
+		return len(callsIn(f, false, func(cal *ssa.Function, _ ssa.CallInstruction) bool { return cal == target })) > 0
+	}
+}
+
+// atOpSites runs f for every way the instruction `in` is reached from within the operation anchored at fn: once
+// directly if it lies in fn (or one of its closures), otherwise once per call site — inside the operation — of the
+// private helper that contains it, with the helper's parameters bound to that site's arguments.
+func (c *Ctx) atOpSites(fn *ssa.Function, in ssa.Instruction, depth int, f func()) {
+	h := top(in.Parent())
+	if h == fn || depth > 2 {
+		f()
+		return
+	}
+	inOp := map[*ssa.Function]bool{}
+	for _, g := range c.opFuncs(fn) {
+		inOp[g] = true
+	}
+	n := 0
+	for _, site := range c.callersOf(h) {
+		if !inOp[top(site.Parent())] {
+			continue
+		}
+		n++
+		bind := map[*ssa.Parameter]ssa.Value{}
+		for i, p := range h.Params {
+			if i < len(site.Common().Args) {
+				bind[p] = site.Common().Args[i]
+			}
+		}
+		withBindMap(bind, func() { c.atOpSites(fn, site, depth+1, f) })
+	}
+	if n == 0 {
+		f()
+	}
+}
+
+// callsInOp: callsIn over the operation anchored at fn (fn, its closures, and the private helpers that belong to it).
+func (c *Ctx) callsInOp(fn *ssa.Function, pred func(cal *ssa.Function, call ssa.CallInstruction) bool) []ssa.CallInstruction {
+	var out []ssa.CallInstruction
+	for _, f := range c.opFuncs(fn) {
+		out = append(out, callsIn(f, true, pred)...)
+	}
 	return out
 }
 
